@@ -350,10 +350,11 @@ def reaches_call(fb, body, pred, seen=None, depth=0):
     return False
 
 
-def reachable_calls(fb, body, seen=None, depth=0):
-    """every (body, bb, terminator, fn) call site in `body` and the workspace functions it reaches"""
+def reachable_calls(fb, body, seen=None, depth=0, stop=None):
+    """every (body, bb, terminator, fn) call site in `body` and the workspace functions it reaches (not descending into
+    functions for which stop(body) holds)"""
     seen = seen if seen is not None else set()
-    if body.path in seen or depth > 6:
+    if body.path in seen or depth > 6 or (stop is not None and depth > 0 and stop(body)):
         return
     seen.add(body.path)
     for bb, t, fn in user_calls(body):
@@ -363,7 +364,7 @@ def reachable_calls(fb, body, seen=None, depth=0):
         nm = mir.callee_name(fn)
         nb = fb.body(nm) or (fb.body(fn['path']) if fn.get('defkind') == 'Closure' else None)
         if nb is not None:
-            yield from reachable_calls(fb, nb, seen, depth + 1)
+            yield from reachable_calls(fb, nb, seen, depth + 1, stop)
 
 
 _ANCHORS = {}
